@@ -138,7 +138,7 @@ def func_src(fi: FuncInfo) -> str:
 
 def loc(fi: FuncInfo, node=None) -> str:
     n = node if node is not None else fi.node
-    return f"{fi.module.relpath}:{getattr(n, 'lineno', fi.node.lineno)}"
+    return f"{getattr(fi.node, '_relpath', None) or fi.module.relpath}:{getattr(n, 'lineno', fi.node.lineno)}"
 
 
 def brief(tm) -> str:
